@@ -339,6 +339,40 @@ fn crypt_kdf_user_rev2() { kdf_case(2, 5) }
 #[kani::stub(md5::compute, md5_round_spy)]
 #[kani::stub(crate::crypt::Rc4::encrypt, rc4_spy)]
 fn crypt_kdf_user_rev3() { kdf_case(3, 16) }
+/// /Length 256 with revision 3 (a key longer than the 16-byte digest): the extra rounds hash min(key_size, 16) bytes -- no panic
+#[kani::proof]
+#[kani::stub(std::fmt::format, nofmt)]
+#[kani::stub(std::hash::RandomState::new, fixed_rs)]
+#[kani::stub(md5::Context::new, ctx_new_spy)]
+#[kani::stub(md5::Context::consume, ctx_consume_spy)]
+#[kani::stub(md5::Context::compute, ctx_compute_spy)]
+#[kani::stub(md5::compute, md5_round_spy)]
+#[kani::stub(crate::crypt::Rc4::encrypt, rc4_spy)]
+fn crypt_kdf_user_rev3_long_key() {
+    let pass: [u8; 4] = kani::any();
+    let o = [0x4fu8; 32]; let id = [0x1du8; 16];
+    let mut u = [0u8; 32]; let mut i = 0; while i < 16 { u[i] = DIGEST[i]; i += 1; }
+    let dict = CryptDict {
+        o: PdfString::new(o[..].into()), u: PdfString::new(u[..].into()), r: 3, p: -4, v: 2,
+        bits: 256, crypt_filters: HashMap::new(), default_crypt_filter: None, encrypt_metadata: true,
+        oe: None, ue: None, _other: Dictionary::new(),
+    };
+    #[cfg(kani)]
+    {
+        unsafe { RND_LEN = 16; }
+        let r = Decoder::from_password(&dict, &id, &pass);
+        let ok = matches!(&r, Ok(d) if d.key_size == 32 && d.key.len() >= 32);
+        std::mem::forget(r);
+        assert!(ok);
+        unsafe { assert!(RND_CALLS == 50 && !RND_BADLEN); }
+    }
+    #[cfg(verif_replay)]
+    {
+        // natively: the call must return (Ok or Err); a panic fails the test
+        let _ = Decoder::from_password(&dict, &id, &pass);
+    }
+    std::mem::forget(dict);
+}
 
 /// Algorithm 7 (owner password), revision 3 with a 40-bit key: the /O entry is unwrapped with TWENTY RC4 passes (one only in
 /// revision 2), each keyed with the owner key XOR the pass number. Stubs: MD5 contexts/rounds and RC4 are recording stubs;
